@@ -20,7 +20,7 @@ Id == {"none", "acct-empty", "acct-wallet-only", "acct-valid", "acct-unknown", "
        "acct-created", "key-created"}      \* an account created through Dirk earlier in the run (by name / by public key)
 \* The same message classes are also sent CONCURRENTLY (phase 2 of the check): Streams request streams run next to a stream that keeps
 \* creating accounts; "alive" is judged by a fresh client afterwards.
-Streams == 16
+Streams == 32
 U64 == {"0", "1", "2^63-1", "2^63", "2^64-1"}
 U32 == {"0", "1", "2", "3", "2^32-1"}
 Count == {"0", "1", "2", "17", "300"}
